@@ -32,7 +32,7 @@ META = {
     "technique": "property-based differential testing: Hypothesis-drawn (operator, operand recipes) evaluated by the real "
                  "ExecutionTracer vs. Python's own operator on fresh copies; operation logs of instrumented user objects",
     "design_ref": "DESIGN.md §3 C04",
-    "rule": "case = comparison kind (10 compare ops, truthiness, exception match) + operand recipes drawn from numeric edges "
+    "rule": "case = comparison kind (10 compare ops, truthiness, exception match, auxiliary `key in container` before a subscript) + operand recipes drawn from numeric edges "
             "(|x|>2**53, >1e308, NaN, inf, -0.0, subnormal, Decimal/Fraction/complex), str/bytes, nested containers, sets "
             "(partial order), one-shot iterators, ranges and logged user objects with partial/raising protocols; "
             "non-trivial = operands of different categories or at least one edge-class operand; distinct by (op, recipes)",
@@ -46,7 +46,7 @@ META = {
     "level_note": "Trusted: CPython's operators as reference; the recipe materialiser and the operation log in vf/gen/values.py.",
 }
 PLAN = {
-    "quick": {"shards": 16, "examples": 24000, "shrink_sigs": 2, "shrink_seconds": 6, "shrink_calls": 150},
+    "quick": {"shards": 16, "examples": 16000, "shrink_sigs": 2, "shrink_seconds": 6, "shrink_calls": 150},
     "thorough": {"shards": 16, "examples": 2000000, "timeout": 3000, "shrink_sigs": 6},
 }
 
@@ -132,7 +132,34 @@ def _exc_pairs() -> st.SearchStrategy:
     invalid = V.choice(V.ints(), V.strs(), V.nones(), st.just({"k": "type", "name": "object"}), st.just({"k": "type", "name": "int"}),
                         st.just({"k": "tuple", "items": [{"k": "excclass", "name": "ValueError"}, {"k": "int", "v": 1}]}))
     err = V.choice(V.exception_instances(), V.exception_instances(), V.exception_instances(), cls)
-    return st.tuples(err, V.choice(cls, cls, cls, tup, tup, invalid))
+
+    def inst(c):
+        return {"k": "excinst", "cls": c, "args": []}
+
+    def builtin(n):
+        return {"k": "excclass", "name": n}
+
+    # directed shapes: (a) a real subclass relation, (b) an exception ABC that merely *registers* the raised class
+    name = st.sampled_from(V.BUILTIN_EXCS)
+    sub = st.tuples(name, st.booleans()).map(lambda t: (
+        inst({"k": "excclass", "user": {"n": "E1", "base": builtin(t[0]), "meta": "plain"}}),
+        builtin(t[0]) if t[1] else {"k": "tuple", "items": [builtin("KeyError"), builtin(t[0])]}))
+    virtual = st.tuples(name, st.sampled_from(["Exception", "OSError", "ArithmeticError"]), st.booleans()).map(lambda t: (
+        inst(builtin(t[0])),
+        (lambda abc: abc if t[2] else {"k": "tuple", "items": [abc]})(
+            {"k": "excclass", "user": {"n": "E2", "base": builtin(t[1]), "meta": "abc", "virtual": [t[0]]}})))
+    general = st.tuples(err, V.choice(cls, cls, cls, tup, tup, invalid))
+    return V.choice(general, general, general, sub, virtual)
+
+
+def _subscr_pairs() -> st.SearchStrategy:
+    """(key, container) for the auxiliary membership predicate that precedes ``container[key]``: built-in containers only."""
+    key = V.choice(st.integers(-2, 4).map(lambda v: {"k": "int", "v": v}), V.strs(2), V.slices(), V.ints(), V.floats(), V.nones(),
+                   V.bools(), st.just({"k": "list", "items": []}), st.just({"k": "tuple", "items": [{"k": "int", "v": 0}]}))
+    elem = V.choice(st.integers(0, 3).map(lambda v: {"k": "int", "v": v}), V.strs(2), V.floats(), V.nones())
+    seq = st.tuples(st.sampled_from(["list", "tuple"]), st.lists(elem, max_size=4)).map(lambda t: {"k": t[0], "items": t[1]})
+    dicts = st.lists(st.tuples(elem, elem).map(list), max_size=3).map(lambda xs: {"k": "dict", "items": xs})
+    return st.tuples(key, V.choice(seq, seq, dicts, dicts, V.strs(), V.bytess(), V.ranges()))
 
 
 def _bool_values() -> st.SearchStrategy:
@@ -161,6 +188,7 @@ def strategy(ctx) -> st.SearchStrategy:
         _bool_values().map(lambda v: {"kind": "bool", "op": "BOOL", "v1": v, "v2": {"k": "none"}, "alias": False}),
         _bool_values().map(lambda v: {"kind": "bool", "op": "BOOL", "v1": v, "v2": {"k": "none"}, "alias": False}),
         case("exc", ["EXC_MATCH"], _exc_pairs()),
+        case("subscr", ["SUBSCR_IN"], _subscr_pairs()),
     )
 
 
@@ -171,6 +199,12 @@ def _reference(kind: str, op: str, a: Any, b: Any) -> tuple[bool | None, BaseExc
             return bool(a), None
         if kind == "exc":
             return _python_exception_match(a, b), None
+        if kind == "subscr":  # the operation of the module under test is container[key]; the recorded outcome is `key in container`
+            b[a]
+            try:
+                return a in b, None
+            except TypeError:
+                return None, None
         return bool(PYOPS[op](a, b)), None
     except Exception as exc:  # noqa: BLE001  (the reference operator itself raised: recorded as its type)
         return None, exc
@@ -193,7 +227,7 @@ def _python_exception_match(err: Any, exc: Any) -> bool:
 def _aspects(case: dict[str, Any]) -> tuple[str, str]:
     if case["kind"] == "bool":
         return "truth", "truth"
-    if case["op"] in IN_OPS:
+    if case["op"] in IN_OPS or case["kind"] == "subscr":
         return "cmp", "container"
     return "cmp", "cmp"
 
@@ -234,6 +268,8 @@ def evaluate(case: dict[str, Any]) -> Outcome:
                 tracer.executed_bool_predicate(a2, pid)
             elif kind == "exc":
                 tracer.executed_exception_match(a2, b2, pid)
+            elif kind == "subscr":
+                tracer.executed_in_presence_predicate(a2, b2, pid)
             else:
                 tracer.executed_compare_predicate(a2, b2, pid, PynguinCompare[op])
         except Exception as exc:  # noqa: BLE001  (classified below)
@@ -272,7 +308,7 @@ def evaluate(case: dict[str, Any]) -> Outcome:
                 fail("both-zero", f"true={dt!r} false={df!r} reference outcome {ref_outcome!r}")
             elif dt != 0 and df != 0:
                 fail("none-zero", f"true={dt!r} false={df!r} reference outcome {ref_outcome!r}")
-            elif (dt == 0) != bool(ref_outcome):
+            elif ref_outcome is not None and (dt == 0) != bool(ref_outcome):
                 fail("wrong-outcome", f"true={dt!r} false={df!r} but Python's operator gives {ref_outcome!r}")
 
     # ---- operators invoked on user objects: subset of what the comparison itself invokes
